@@ -4,7 +4,7 @@ BlocksShort == {<<>>, <<97>>, <<32, 97>>, <<97, 0, 32>>, <<200, 32>>, <<0>>}
 BlocksMid == {<<>>, <<97>>, <<32, 97>>}
 BlocksLong == {<<>>, <<97>>, <<97, 97, 97>>}
 TrimSetsDef == {{}, {97}, {32, 200}}
-CmpShort == {<<>>, <<97>>, <<97, 32>>, <<32>>, <<200>>, <<97, 0>>, <<0>>, <<97, 200>>}
+CmpShort == {<<>>, <<97>>, <<97, 32>>, <<32>>, <<200>>, <<97, 0>>, <<0>>, <<97, 200>>, <<97, 0, 32>>, <<97, 0, 97>>, <<0, 200>>, <<0, 97>>}
 OpCode(o) == CASE o = "catc" -> 1 [] o = "catc_" -> 2 [] o = "catn" -> 3 [] o = "catn_" -> 4 [] o = "cats" -> 5 [] o = "cats_" -> 6
   [] o = "cat" -> 7 [] o = "cat_" -> 8 [] o = "catf" -> 9 [] o = "utf_catc" -> 10 [] o = "getc" -> 11 [] o = "getc_" -> 12
   [] o = "getn" -> 13 [] o = "getn_" -> 14 [] o = "rtrim" -> 15 [] o = "rtrim_" -> 16 [] o = "ltrim" -> 17 [] o = "ltrim_" -> 18
